@@ -596,8 +596,13 @@ def shape_case(draw):
     how = draw(st.sampled_from(["free"] * 5 + ["parallel", "same"]))
     d2 = [-2.0 * x for x in d1] if how == "parallel" else list(d1) if how == "same" else draw(v2)
     quad = draw(st.lists(vec_st("int" if mode == "int" else "dyadic", 2), min_size=4, max_size=4))
+    if draw(st.booleans()):      # one point per quadrant, in turning order: mostly convex
+        q = [draw(st.integers(1, 6)) * 1.0 for _ in range(8)]
+        quad = [[-q[0], -q[1]], [q[2], -q[3]], [q[4], q[5]], [-q[6], q[7]]]
+        if draw(st.booleans()):
+            quad.reverse()
     return {"mode": mode, "tri": draw(triangle_st(mode)), "p1": draw(v2), "d1": d1, "p2": draw(v2), "d2": d2, "dim3": draw(st.booleans()),
-            "P": draw(v2), "SA": draw(v2), "SB": draw(st.one_of(v2, st.just(None))),
+            "P": draw(v2), "SA": draw(v2), "SB": draw(st.one_of(v2, v2, v2, v2, st.just(None))),
             "Q": draw(v3), "N": draw(v3), "O": draw(v3),
             "quad": quad, "plane": draw(st.integers(0, 2)), "level": draw(coord(mode))}
 
@@ -1149,15 +1154,35 @@ def m_ops(D):
         mop("AABB.of_points", st.tuples(st.just("flat"), m_vals(3)).map(list), st.just(0.0)),
     ]
     harness = [mop("seterr", st.integers(0, len(ERR_CONFIGS) - 1))]
-    return st.one_of(st.one_of(box_ops), st.one_of(box_ops), st.one_of(vec_ops), st.one_of(geom_ops), st.one_of(geom_ops), st.one_of(rot_ops),
-                     st.one_of(maths_ops), st.one_of(raising), st.one_of(raising), st.one_of(harness))
+    return {"box": st.one_of(box_ops), "vec": st.one_of(vec_ops), "geom": st.one_of(geom_ops), "rot": st.one_of(rot_ops), "maths": st.one_of(maths_ops),
+            "raising": st.one_of(raising), "harness": st.one_of(harness)}
+
+
+FAMILY_WEIGHTS = ["box"] * 5 + ["vec"] * 3 + ["geom"] * 4 + ["rot"] * 2 + ["maths"] + ["raising"] * 3 + ["harness"] + ["macro"] * 4
 
 
 @st.composite
 def machine_case(draw):
     D = draw(st.sampled_from([1, 2, 3, 3, 3, 4]))
     mesh = draw(st.one_of(st.none(), st.lists(m_vals(3), min_size=1, max_size=5)))
-    ops = draw(st.lists(m_ops(D), min_size=2, max_size=25))
+    arr = lambda: st.tuples(st.just("v"), st.one_of(st.none(), st.integers(0, 30)), m_vals(D), st.sampled_from(["f8", "vec", "f8", "vec", "i8", "list"])).map(list)
+    padarg = st.one_of(M_NUM.map(abs), M_NUM.map(abs), m_vec(D, wrong=False))
+    last = st.just(["b", -1])
+    macros = st.one_of(
+        # a box wrapping caller arrays is padded; a box built from another box's corners is padded; a corner is read, then the box is padded
+        st.tuples(mop("AABB", arr(), arr()), mop("box.pad", last, padarg)).map(list),
+        st.tuples(mop("AABB.frombox", M_BOX), mop("box.pad", last, padarg)).map(list),
+        st.tuples(mop("AABB", arr(), arr()), mop("AABB.frombox", last), mop("box.pad", st.sampled_from([["b", -1], ["b", -2]]), padarg)).map(list),
+        st.tuples(mop("box.get", M_BOX, st.sampled_from(["mini", "maxi"])), mop("box.pad", M_BOX, padarg)).map(list),
+        st.tuples(mop("AABB.of_points", st.tuples(st.just("pts"), st.lists(m_vals(D), min_size=1, max_size=4), st.sampled_from(["f8", "i8", "vecs"])).map(list), M_NUM.map(abs)),
+                  mop("box.pad", last, padarg)).map(list))
+    fams = m_ops(D)
+    fams["macro"] = macros
+    ops = []
+    for _ in range(draw(st.integers(2, 16))):
+        fam = draw(st.sampled_from(FAMILY_WEIGHTS))
+        o = draw(fams[fam])
+        ops.extend(o if fam == "macro" else [o])
     return {"dim": D, "mesh": mesh, "ops": ops}
 
 
